@@ -33,6 +33,15 @@ def _host_state_programs():
         f"ㄴ ㅈㄹ ㄱㄴㅎㄷ ({render(bytes_lit(b'a'))} ㅈㄹ ㄱㅇㄱ ㅎㄷ ㅎ) ㄱㄹㅎㄷ",
         "ㄱ ㄹ ㄱㄴㅎㄷ (ㄹ ㄹ ㄱㅇㄱ ㅎㄷ ㅎ) ㄱㄹㅎㄷ",
         f"(ㄴ ㅈㄹ ㄱㄴㅎㄷ ({render(bytes_lit(b'b'))} ㅈㄹ ㄱㅇㄱ ㅎㄷ ㅎ) ㄱㄹㅎㄷ) ({render(str_lit('t'))} ㅈㄹㅎㄴ ㅎ) ㄱㄹㅎㄷ",
+        # process-lifetime *functions* (built-in module functions, functions of an imported module) compared with / keyed next
+        # to functions created by this evaluation: different functions, in every evaluation (seeded change S20i restarted
+        # the identity numbering per program)
+        "(ㅂ ㅅ ㅅㄴ ㅂㅎㄹ) (ㄱㅇㄱ ㅎ) ㄴㅎㄷ",
+        "(ㅂ ㅂㄷ ㄱ ㅂㅎㄹ) (ㄱ ㅎ) ㄴㅎㄷ",
+        "(ㅂ ㅅ ㅅㄴ ㅂㅎㄹ) ((ㅂ ㅅ ㅅㄴ ㅂㅎㄹ) ㄴ (ㄱㅇㄱ ㅎ) ㄷ ㅅㅈㅎㅁ) ㅎㄴ",
+        "((ㅂ ㅅ ㅅㄴ ㅂㅎㄹ) ㅁㄹㅎㄴ) ((ㄱㅇㄱ ㅎ) ㅁㄹㅎㄴ) ㄴㅎㄷ",
+        "(ㄱㅇㄱ ㅎ) (ㄱㅇㄱ ㄱㅇㄱ ㄷㅎㄷ ㅎ) (ㅂ ㅅ ㅅㄴ ㅂㅎㄹ) (ㅂ ㅂㄷ ㄱ ㅂㅎㄹ) (ㄱㅇㄱ ㄴㅇㄱ ㄴㅎㄷ  ㄱㅇㄱ ㄷㅇㄱ ㄴㅎㄷ  ㄴㅇㄱ ㄹㅇㄱ ㄴㅎㄷ  ㄷㅇㄱ ㄹㅇㄱ ㄴㅎㄷ ㅁㄹㅎㅁ ㅎ) ㅎㅁ",
+        render(bi('ㅂ', str_lit("나/다.pbhhg"))) + " (ㄱㅇㄱ ㅎ) ㄴㅎㄷ",
         # process-lifetime objects (the built-in module directories) as operands of a merge / a lookup
         "ㅈㄷ ((ㅂ ㅅ ㅂㅎㄷ) (ㅂ ㄱ ㅅㅈㅎㄷ) ㄷㅎㄷ) ㅎㄴ".replace("ㅈㄷ (", "ㅂ (", 1),
         "ㅂ ((ㅂ ㅅ ㅂㅎㄷ) ㅅㅈㅎㄱ ㄷㅎㄷ) ㅎㄴ",
